@@ -365,6 +365,13 @@ func explore(r *mon.Run, prop string) {
 			r.Inconclusive("generator produced a template the reference rejects: " + bad[0].Tmpl)
 			continue
 		}
+		if prop == "C02" && ambiguous(prules) {
+			// two rules with the same verb and the same pattern but different
+			// variables: no router can tell them apart, there is no
+			// well-defined outcome to be order independent
+			r.Count("rule_sets_out_of_scope_ambiguous_same_pattern", 1)
+			continue
+		}
 		perms := permutations(rng, rs, nperm)
 		var built []*Built
 		rejected := false
@@ -425,6 +432,27 @@ func runCase(r *mon.Run, c *Case, prules []ParsedRule, built []*Built) {
 			}
 		}
 	}
+}
+
+// ambiguous reports whether two rules of the same method have overlapping
+// verbs and identical edge sequences but different text (i.e. bind different
+// fields on indistinguishable paths).
+func ambiguous(prules []ParsedRule) bool {
+	for i := range prules {
+		for j := i + 1; j < len(prules); j++ {
+			a, b := prules[i], prules[j]
+			if a.Method != b.Method || a.T.Src == b.T.Src {
+				continue
+			}
+			if !(a.Verb == b.Verb || a.Verb == "*" || b.Verb == "*") {
+				continue
+			}
+			if strings.Join(a.T.EdgeKeys(), "|") == strings.Join(b.T.EdgeKeys(), "|") {
+				return true
+			}
+		}
+	}
+	return false
 }
 
 func outcomeClass(o Outcome) string {
